@@ -354,11 +354,13 @@ package math
 //@   ensures [unknown] !mapHas(a.inverse, name) ==> result1 != nil
 //@ func (*NodeActivatorsFactory).ActivateByType
 //@   props C18
+//@   abstracts dynamic call
 //@   requires a != nil
 //@   ensures [known] mapHas(a.activators, aType) ==> result1 == nil
 //@   ensures [unknown] !mapHas(a.activators, aType) ==> result1 != nil
 //@ func (*NodeActivatorsFactory).ActivateModuleByType
 //@   props C18
+//@   abstracts dynamic call
 //@   requires a != nil
 //@   ensures [known] mapHas(a.moduleActivators, aType) ==> result1 == nil
 //@   ensures [unknown] !mapHas(a.moduleActivators, aType) ==> result1 != nil && result0 == nil
